@@ -362,6 +362,15 @@ func EqV(a, b Value) *Term {
 		}
 		panic(shapeMismatch{a.shape(), b.shape()})
 	}
+	if aa, ok := a.(ArrV); ok {
+		// by-value arrays are compared element-wise on their N elements
+		if ab, ok := b.(ArrV); ok && aa.N <= 64 && aa.N > 0 {
+			if aa.A == ab.A {
+				return True
+			}
+			return Eq(packArr(aa.A, int(aa.N)), packArr(ab.A, int(ab.N)))
+		}
+	}
 	ca, cb := a.comps(), b.comps()
 	var cs []*Term
 	for i := range ca {
